@@ -183,8 +183,8 @@ pub fn trap_violation_kind(claim: Prop, file: &str, line: u32, message: &str, op
         (Prop::C03, "status") | (Prop::C03, "generate") => (Prop::C03, "status.trap"),
         (Prop::C04, "hash") => (Prop::C04, "hash.trap"),
         (Prop::C05, "print") | (Prop::C05, "parse") | (Prop::C05, "build") => (Prop::C05, "fen.trap"),
-        (Prop::C06, "parse") => (Prop::C06, "parse.trap"),
-        (Prop::C06, "build") => (Prop::C06, "build.trap"),
+        (Prop::C06, "parse") | (Prop::C06, "parse-damaged") => (Prop::C06, "parse.trap"),
+        (Prop::C06, "build") | (Prop::C06, "build-damaged") => (Prop::C06, "build.trap"),
         (Prop::C10, "iterate") | (Prop::C10, "generate") => (Prop::C10, "iter.trap"),
         (Prop::C11, "search") => (Prop::C11, "search.trap"),
         (Prop::C15, "plugin") => (Prop::C15, "plugin.trap"),
